@@ -911,6 +911,16 @@ def _as_ifexp(st):
     tb, vb = _single_target_assign(b)
     if ta is not None and tb is not None and norm(ta) == norm(tb):
         return ast.Assign(targets=[ta], value=ast.IfExp(test=st.test, body=va, orelse=vb), lineno=0)
+
+    def one_arg_method(x):
+        if isinstance(x, ast.Expr) and isinstance(x.value, ast.Call) and isinstance(x.value.func, ast.Attribute) and x.value.func.attr in ("append", "add") \
+                and isinstance(x.value.func.value, ast.Name) and len(x.value.args) == 1 and not x.value.keywords and not isinstance(x.value.args[0], ast.Starred):
+            return x.value.func.value.id, x.value.func.attr, x.value.args[0]
+        return None
+    ma, mb = one_arg_method(a), one_arg_method(b)
+    if ma is not None and mb is not None and ma[:2] == mb[:2]:
+        return ast.Expr(value=ast.Call(func=ast.Attribute(value=ast.Name(id=ma[0], ctx=ast.Load()), attr=ma[1], ctx=ast.Load()),
+                                       args=[ast.IfExp(test=st.test, body=ma[2], orelse=mb[2])], keywords=[]))
     return None
 
 
@@ -971,6 +981,55 @@ def canonical_loops(fn, notes, where):
     return changed
 
 
+def _module_constants(tree):
+    """module-level names bound exactly once, to a literal number / string / bytes, and never rebound anywhere in the module"""
+    cand, stores = {}, {}
+    for st in tree.body:
+        if isinstance(st, ast.Assign) and len(st.targets) == 1 and isinstance(st.targets[0], ast.Name) and isinstance(st.value, ast.Constant) \
+                and isinstance(st.value.value, (int, float, str, bytes)) and not isinstance(st.value.value, bool):
+            cand[st.targets[0].id] = st.value
+    for n in ast.walk(tree):
+        if isinstance(n, ast.Name) and isinstance(n.ctx, (ast.Store, ast.Del)):
+            stores[n.id] = stores.get(n.id, 0) + 1
+        elif isinstance(n, ast.Global):
+            for nm in n.names:
+                stores[nm] = stores.get(nm, 0) + 2
+        elif isinstance(n, (ast.FunctionDef, ast.AsyncFunctionDef, ast.ClassDef)):
+            stores[n.name] = stores.get(n.name, 0) + 2
+    return {k: v for k, v in cand.items() if stores.get(k, 0) == 1}
+
+
+def propagate_constants(mname, tree, fn, consts_by_module, notes, where):
+    """in a function that differs from the reference, a module-level constant hoisted out of it reads as its literal"""
+    local = set()
+    for n in ast.walk(fn):
+        if isinstance(n, ast.arg):
+            local.add(n.arg)
+        elif isinstance(n, ast.Name) and isinstance(n.ctx, (ast.Store, ast.Del)):
+            local.add(n.id)
+    table = dict(consts_by_module.get(mname, {}))
+    for st in tree.body:
+        if isinstance(st, ast.ImportFrom) and st.module in consts_by_module and st.level == 0:
+            for a in st.names:
+                if a.name in consts_by_module[st.module]:
+                    table.setdefault(a.asname or a.name, consts_by_module[st.module][a.name])
+    table = {k: v for k, v in table.items() if k not in local}
+    if not table:
+        return False
+    done = set()
+
+    class T(ast.NodeTransformer):
+        def visit_Name(self, node):
+            if isinstance(node.ctx, ast.Load) and node.id in table:
+                done.add(node.id)
+                return ast.copy_location(ast.Constant(value=table[node.id].value), node)
+            return node
+    T().visit(fn)
+    if done:
+        notes.append(f"{where}: module-level constant(s) {sorted(done)} read as their literals")
+    return bool(done)
+
+
 def prenormalise(trees):
     """trees: {module name: ast.Module}; rewrites in place -> (set of changed module names, notes)"""
     ref = load_reference()
@@ -992,12 +1051,15 @@ def prenormalise(trees):
     inl = Inliner(trees, ref, notes)
     inl.run()
     changed |= inl.changed
+    consts = {mname: _module_constants(tree) for mname, tree in trees.items()}
     for mname, tree in trees.items():
         known = ref.get(mname, {})
         for q, (fn, parent, cls) in function_table(tree).items():
             entry = known.get(q)
             if isinstance(entry, dict) and entry.get("hash") == body_hash(fn):
                 continue  # as in the reference: left as written
+            if propagate_constants(mname, tree, fn, consts, notes, f"{mname}:{q}"):
+                changed.add(mname)
             if canonical_loops(fn, notes, f"{mname}:{q}"):
                 changed.add(mname)
     return changed, notes
